@@ -118,26 +118,26 @@ def boolBytes (b : Bool) : Bytes := if b then [1] else []
 
 def byteAt (s : Bytes) (i : Nat) : Nat := (s.getD i 0).toNat
 
-/-- `IsValidSignatureEncoding` (BIP66), on the full signature including the hash type byte. -/
-def isValidSignatureEncoding (sig : Bytes) : Bool :=
-  let n := sig.length
-  if n < 9 then false else if n > 73 then false
-  else if byteAt sig 0 != 0x30 then false
-  else if byteAt sig 1 != n - 3 then false
-  else
-    let lenR := byteAt sig 3
-    if 5 + lenR ≥ n then false else
-    let lenS := byteAt sig (5 + lenR)
-    if lenR + lenS + 7 != n then false
-    else if byteAt sig 2 != 0x02 then false
-    else if lenR == 0 then false
-    else if byteAt sig 4 &&& 0x80 != 0 then false
-    else if lenR > 1 && byteAt sig 4 == 0 && byteAt sig 5 &&& 0x80 == 0 then false
-    else if byteAt sig (lenR + 4) != 0x02 then false
-    else if lenS == 0 then false
-    else if byteAt sig (lenR + 6) &&& 0x80 != 0 then false
-    else if lenS > 1 && byteAt sig (lenR + 6) == 0 && byteAt sig (lenR + 7) &&& 0x80 == 0 then false
-    else true
+/-- structural part of `IsValidSignatureEncoding` (BIP66): total length, sequence tag and length, the two
+integer tags, and the element lengths adding up -/
+def derShape (sig : Bytes) : Bool :=
+  decide (9 ≤ sig.length) && decide (sig.length ≤ 73) && (byteAt sig 0 == 0x30) &&
+  (byteAt sig 1 == sig.length - 3) && decide (5 + byteAt sig 3 < sig.length) &&
+  (byteAt sig 3 + byteAt sig (5 + byteAt sig 3) + 7 == sig.length) && (byteAt sig 2 == 0x02) &&
+  (byteAt sig (byteAt sig 3 + 4) == 0x02)
+
+/-- the rules on the two integers: not empty, not negative, no unnecessary leading zero byte -/
+def derInts (sig : Bytes) : Bool :=
+  let lenR := byteAt sig 3
+  let lenS := byteAt sig (5 + lenR)
+  lenR != 0 && (byteAt sig 4 &&& 0x80 == 0) &&
+  !(lenR > 1 && byteAt sig 4 == 0 && byteAt sig 5 &&& 0x80 == 0) &&
+  lenS != 0 && (byteAt sig (lenR + 6) &&& 0x80 == 0) &&
+  !(lenS > 1 && byteAt sig (lenR + 6) == 0 && byteAt sig (lenR + 7) &&& 0x80 == 0)
+
+/-- `IsValidSignatureEncoding` (BIP66), on the full signature including the hash type byte: Core's chain of
+`if (…) return false` is a conjunction (every test is a total function of the bytes). -/
+def isValidSignatureEncoding (sig : Bytes) : Bool := derShape sig && derInts sig
 
 def beNat (b : Bytes) : Nat := b.foldl (fun acc x => acc * 256 + x.toNat) 0
 
